@@ -370,6 +370,12 @@ impl VM {
                     let left = self.pop();
                     let result = match left.tag() {
                         Type::Float => unsafe { Object::float(-left.as_f64_unchecked(), gc) },
+                        // the smallest integer has no positive counterpart
+                        Type::Int if left.as_int() == crate::object::MIN_INT => {
+                            return Err(Error::TypeError(
+                                "uitkomst valt buiten het bereik van een geheel getal".to_string(),
+                            ))
+                        }
                         Type::Int => Object::int(-left.as_int()),
                         _ => {
                             return Err(Error::TypeError(format!(
